@@ -26,6 +26,7 @@ func init() {
 			{"R7.5", "one flush takes the whole backlog that was queued when it started", ruleFlushDrainsBacklog},
 			{"R7.2", "a flush requester is answered only after a flush that ran after its request was taken", ruleReplyDiscipline},
 			{"R7.1", "the requester waits for a flush", ruleRequesterWaits},
+			{"R5.2", "the checkpoint candidate is the id of a transaction group that was logged", ruleOneIDPerCommit},
 		},
 	})
 }
@@ -52,6 +53,8 @@ func init() {
 			{"R7.5", "one flush takes the whole backlog that was queued when it started", ruleFlushDrainsBacklog},
 			{"R7.2", "a flush requester is answered only after a flush that ran after its request was taken", ruleReplyDiscipline},
 			{"R7.1", "the requester waits for a flush", ruleRequesterWaits},
+			{"R5.2", "the checkpoint candidate is the id of a transaction group that was logged", ruleOneIDPerCommit},
+			{"R6.6", "replay after power loss: a torn/zero-filled tail does not make replay drop the committed groups before it", ruleReplayRecordResultsAfterErrTest},
 		},
 	})
 	register(&Property{
@@ -101,6 +104,7 @@ func init() {
 			{"R34.4", "replay brackets its work with status records", ruleReplayBrackets},
 			{"R34.8", "ReplayError is recognised through error wrapping", ruleReplayErrorUnwrapped},
 			{"R34.9", "no checkpoint after a failed replay write", ruleNoCheckpointAfterFailedReplayWrite},
+			{"R5.3", "replay applies transaction groups in ascending id order (each replayed group is checkpointed, and a checkpoint covers every lower id)", ruleReplaySorted},
 			{"R2.1", "replayed TG is checkpointed", ruleReplayCheckpointed},
 			{"R35.4", "checkpoint records (COMMITCOMPLETE only) prune replay by id order", ruleCheckpointPrunesReplay},
 			{"R34.7", "no file mutation outside the owning gates", ruleNoForeignWriter("R34.7")},
@@ -118,6 +122,8 @@ func init() {
 			{"R35.4", "checkpoint records prune replay", ruleCheckpointPrunesReplay},
 			{"R4.2", "a checkpoint candidate is forgotten only after its COMMITCOMPLETE marker was written (the final checkpoint at shutdown relies on it)", ruleCheckpointBrackets},
 			{"R34.9", "no checkpoint after a failed replay write", ruleNoCheckpointAfterFailedReplayWrite},
+			{"R5.2", "the checkpoint candidate is the id of a transaction group that was logged, set with the commit record", ruleOneIDPerCommit},
+			{"R5.3", "replay in ascending id order", ruleReplaySorted},
 		},
 	})
 	register(&Property{
@@ -131,6 +137,8 @@ func init() {
 			{"R35.4", "checkpoint records prune replay", ruleCheckpointPrunesReplay},
 			{"R2.3", "no phantom writer", ruleNoForeignWriter("R2.3")},
 			{"R34.9", "no checkpoint after a failed replay write", ruleNoCheckpointAfterFailedReplayWrite},
+			{"R5.1", "the checkpoint candidate is written only by the commit path, the checkpoint and replay", ruleSingleWALWriter},
+			{"R5.2", "the checkpoint candidate is the id of a transaction group that was logged", ruleOneIDPerCommit},
 			{"R34.1", "replay state gate: replayed files are not replayed again, unfinished ones are", ruleDeleteGuarded},
 			{"R5.3", "replay in commit order", ruleReplaySorted},
 		},
@@ -157,8 +165,8 @@ func init() {
 	register(&Property{
 		ID: "C06",
 		Explanation: "Decides, for the readers that run before the checksum gate: (R6.1) every integer decoded from WAL bytes that sizes a buffer or bounds a slice is behind a lower- and an upper-bound test on every path; (R2.2) TG bytes reach the parser/apply loop only behind a successful checksum comparison; " +
-			"(R6.3) each iteration of the scan loop reads from the file before the next one and fullRead stops on EOF/short reads (no hang); (R6.4) no explicit panic is reachable from Replay; (R6.5) every caller of wal.Read indexes/decodes the returned buffer only behind the nil-error edge (at EOF or on a short read the buffer is nil/short).",
-		NotCovered: "implicit bounds-check panics inside ParseTGData/DSVFromBytes for checksum-valid but adversarial records; that every intact TG before the damage is applied.",
+			"(R6.3) each iteration of the scan loop reads from the file before the next one and fullRead stops on EOF/short reads (no hang); (R6.4) no explicit panic is reachable from Replay; (R6.5) every caller of wal.Read indexes/decodes the returned buffer only behind the nil-error edge (at EOF or on a short read the buffer is nil/short); (R6.6) the results of readTGData/readTransactionInfo key or fill the replay tables (tgData, offsetTGDataInWAL) only behind the reader's nil-error edge or on a branch no error return can take — a damaged record is skipped, not recorded under TG id 0 (fixed defect: two damaged records made replay give up the whole log).",
+		NotCovered: "implicit bounds-check panics inside ParseTGData/DSVFromBytes for checksum-valid but adversarial records; value-level completeness of the set of applied TGs beyond the structural conditions R6.6/R35.4/R5.3.",
 		Rules: []Rule{
 			{"R6.1", "lengths from the log are bounded on both sides", ruleUntrustedLengths},
 			{"R2.2", "checksum gate", ruleChecksumGate},
@@ -168,6 +176,7 @@ func init() {
 			{"R35.4", "only a COMPLETE checkpoint record prunes transaction groups (a torn checkpoint must not hide intact ones)", ruleCheckpointPrunesReplay},
 			{"R5.3", "intact TGs are applied in commit order", ruleReplaySorted},
 			{"R34.8", "a tolerated replay failure is recognised through error wrapping (startup does not abort on it)", ruleReplayErrorUnwrapped},
+			{"R6.6", "a damaged record is skipped, not recorded under TG id 0: reader results reach the replay tables only behind the nil-error edge", ruleReplayRecordResultsAfterErrTest},
 		},
 	})
 }
